@@ -662,7 +662,13 @@ impl<'a, S: Storage> BTree<'a, S> {
         let free_end = u16::from_le_bytes([page_data[6], page_data[7]]) as usize;
         let cell_count = u16::from_le_bytes([page_data[2], page_data[3]]) as usize;
 
-        if cell_count > 0 {
+        // An emptied leaf has no key to compare with, and the new key is not
+        // known to lie above this leaf's lower separator: take the normal path.
+        if cell_count == 0 {
+            return Ok(false);
+        }
+
+        {
             let last_slot_off = LEAF_CONTENT_START + (cell_count - 1) * SLOT_SIZE;
             let last_slot = &page_data[last_slot_off..last_slot_off + SLOT_SIZE];
             let off = u16::from_le_bytes([last_slot[4], last_slot[5]]) as usize;
@@ -884,12 +890,18 @@ impl<'a, S: Storage> BTree<'a, S> {
             return Ok(false);
         }
 
+        // The comparison with the last key is what proves that `key` belongs in
+        // this leaf. An emptied leaf (deletes never unlink leaves) has no such
+        // key: `key` may be a duplicate or lie below the leaf's lower separator,
+        // so let the normal descent route it.
         let cell_count = leaf.cell_count() as usize;
-        if cell_count > 0 {
-            let last_key = leaf.key_at(cell_count - 1)?;
-            if key <= last_key {
-                return Ok(false);
-            }
+        if cell_count == 0 {
+            return Ok(false);
+        }
+
+        let last_key = leaf.key_at(cell_count - 1)?;
+        if key <= last_key {
+            return Ok(false);
         }
 
         let value_len_size = varint_len(value.len() as u64);
